@@ -17,6 +17,7 @@ import (
 	"strings"
 	"time"
 
+	"github.com/NethermindEth/juno/core"
 	"github.com/NethermindEth/juno/core/felt"
 	"verif/harness/lib"
 )
@@ -43,16 +44,25 @@ type scenarioParams struct {
 	every      int // query round after every n-th operation
 	pairs      int // (contract, slot) pairs per block id
 	txPerKind  int
-	consistBlk int  // blocks per round for the cross-method consistency pass
-	exhaustAt  int  // operation index after which the exhaustive round runs (-1: never)
-	short      bool // a short history (more reorg / L1 operations per block)
-	preConf    bool // pre_confirmed data present on the nodes
+	consistBlk int         // blocks per round for the cross-method consistency pass
+	exhaustAt  int         // operation index after which the exhaustive round runs (-1: never)
+	short      bool        // a short history (more reorg / L1 operations per block)
+	preConf    bool        // pre_confirmed data present on the nodes
+	prune      bool        // the node prunes (pruner.PruneUpto at random points of the history)
+	seedFloor  bool        // ... with the shared retention floor seeded (node.go) / never seeded
+	pruneAt    map[int]int // height -> floor: prune to that floor when the chain first reaches the height
+	exhaustEnd bool        // the exhaustive round at the end of the history
+	fault      bool        // at the very end: delete the commitments record of a retained block
 }
 
 func main() {
 	f := lib.ParseFlags()
 	if os.Getenv("C08_PROBE") == "deployreplace" {
 		probeDeployReplace()
+		return
+	}
+	if os.Getenv("C08_PROBE") == "prune" {
+		probePruned()
 		return
 	}
 	if os.Getenv("C08_PROBE") == "null" {
@@ -119,10 +129,29 @@ func main() {
 		sp := long
 		if s >= nLong {
 			ops := 4 + r.Intn(5)
-			sp = scenarioParams{ops: ops, every: 1000, pairs: 2, txPerKind: 2, consistBlk: 2, exhaustAt: ops - 1, short: true, preConf: s%4 == 3}
+			sp = scenarioParams{ops: ops, every: 1000, pairs: 2, txPerKind: 2, consistBlk: 2, exhaustAt: ops - 1, short: true, preConf: s%4 == 3,
+				prune: s%4 == 1 || s%4 == 2, seedFloor: s%8 == 1 || s%8 == 6}
 		}
 		if err := h.scenario(s, r, sp); err != nil {
 			res.Fatalf("scenario %d aborted: %v", s, err)
+		}
+	}
+	// pruned nodes: longer histories whose pruning floors straddle the constants on the way — the
+	// ten-header window (core.BlockHashLag), the width boundary of the CBOR-encoded block number that
+	// keys the transactions record (23 | 24) — with reorgs above the floor, a second and third prune
+	// (the sweep resumes at the previous floor), the retention floor seeded or not, and at the very
+	// end a commitments record deleted behind the node's back
+	for k := 0; k < h.f.Scale(2, 10); k++ {
+		sc := 2000 + k
+		if only != nil && *only != sc {
+			continue
+		}
+		r := root.Fork(uint64(sc))
+		at := map[int]int{5: 1 + r.Intn(3), 14: 11 + r.Intn(2), 27: 23 + r.Intn(3)}
+		sp := scenarioParams{ops: 60, every: 15, pairs: 2, txPerKind: 2, consistBlk: 2, exhaustAt: -1, prune: true, seedFloor: k%2 == 0,
+			pruneAt: at, exhaustEnd: true, fault: true}
+		if err := h.scenario(sc, r, sp); err != nil {
+			res.Fatalf("pruned-node scenario %d aborted: %v", sc, err)
 		}
 	}
 	// old blocks (pre-0.13.2 headers with missing fields): two little chains of their own
@@ -164,6 +193,14 @@ func (h *harness) scenario(s int, r *lib.RNG, sp scenarioParams) error {
 	if err := h.rejections(s, r); err != nil {
 		return err
 	}
+	if sp.seedFloor {
+		// node.go seeds the floor at start-up (after the migrations), here on the empty database
+		if err := w.seedFloors(); err != nil {
+			return err
+		}
+		lines = append(lines, "seed")
+		h.res.Hit("config:retention-floor-seeded")
+	}
 	// the empty chain
 	if err := doRound(); err != nil {
 		return err
@@ -182,9 +219,59 @@ func (h *harness) scenario(s int, r *lib.RNG, sp scenarioParams) error {
 		}
 	}
 	pendingReverts := 0
+	pruneNow := func(e int) error {
+		if w.l1 == nil || w.l1Sentinel || *w.l1 < uint64(e) {
+			// the pruner only ever prunes below the recorded L1 head
+			n := uint64(e + r.Intn(w.height()-e+2))
+			if err := w.setL1(n); err != nil {
+				return err
+			}
+			lines = append(lines, fmt.Sprintf("l1 %x", n))
+			h.res.Hit("op:set-l1")
+		}
+		if err := w.prune(e); err != nil {
+			return err
+		}
+		lines = append(lines, fmt.Sprintf("prune %x", e))
+		if w.floorSeeded {
+			lines = append(lines, "seed")
+		}
+		h.res.Hit("op:prune")
+		switch {
+		case e > int(core.BlockHashLag):
+			h.res.Hit("prune:headers-deleted")
+		default:
+			h.res.Hit("prune:all-headers-kept")
+		}
+		if e >= 24 {
+			h.res.Hit("prune:floor-at-or-above-24")
+		}
+		return nil
+	}
 	for op := 0; op < sp.ops; op++ {
 		ht := w.height()
+		if pendingReverts > 0 && !(ht-2 >= w.prunedBelow) {
+			pendingReverts = 0 // never revert the oldest retained block (the pruner keeps below the L1 head; L1-accepted blocks do not reorg)
+		}
+		if e, ok := sp.pruneAt[ht]; ok && e > w.prunedBelow && e < ht {
+			delete(sp.pruneAt, ht)
+			if err := pruneNow(e); err != nil {
+				return err
+			}
+			if err := h.snapshot(s, w, &lines); err != nil {
+				return err
+			}
+			if err := doRound(); err != nil {
+				return err
+			}
+			h.res.Hit("round:right-after-prune")
+			continue
+		}
 		switch {
+		case sp.prune && sp.pruneAt == nil && ht >= 2 && w.prunedBelow < ht-1 && (r.Chance(1, 4) || (w.prunedBelow == 0 && ht >= 3)):
+			if err := pruneNow(w.prunedBelow + 1 + r.Intn(ht-1-w.prunedBelow)); err != nil {
+				return err
+			}
 		case pendingReverts > 0 && ht > 0:
 			pendingReverts--
 			if err := w.revert(); err != nil {
@@ -200,7 +287,7 @@ func (h *harness) scenario(s int, r *lib.RNG, sp scenarioParams) error {
 				}
 				h.res.Hit("round:right-after-reorg")
 			}
-		case (ht >= 3 && r.Chance(1, 8)) || (sp.short && ht >= 2 && r.Chance(1, 5)):
+		case ((ht >= 3 && r.Chance(1, 8)) || (sp.short && ht >= 2 && r.Chance(1, 5))) && ht-2 >= w.prunedBelow && !(sp.pruneAt != nil && r.Bool()):
 			// a reorg: drop 1..3 blocks (the next operations re-grow a different fork). Ask about
 			// the blocks that are about to go first, by every kind of id (warms whatever caches)
 			if err := doQueries(w.warm(r)); err != nil {
@@ -208,6 +295,9 @@ func (h *harness) scenario(s int, r *lib.RNG, sp scenarioParams) error {
 			}
 			h.res.Hit("round:right-before-reorg")
 			pendingReverts = r.Intn(3)
+			if w.prunedBelow > 0 && pendingReverts > ht-2-w.prunedBelow {
+				pendingReverts = ht - 2 - w.prunedBelow
+			}
 			if err := w.revert(); err != nil {
 				return err
 			}
@@ -219,10 +309,10 @@ func (h *harness) scenario(s int, r *lib.RNG, sp scenarioParams) error {
 				}
 				h.res.Hit("round:right-after-reorg")
 			}
-		case ht >= 1 && r.Chance(1, 5):
+		case ht >= 1 && r.Chance(1, 5) && !(sp.pruneAt != nil && r.Bool()):
 			// L1 head positions: genesis, inside, the head, just ahead, far ahead
 			var n uint64
-			if r.Chance(1, 10) {
+			if r.Chance(1, 10) && w.prunedBelow == 0 {
 				if err := w.setL1Zero(); err != nil {
 					return err
 				}
@@ -242,6 +332,10 @@ func (h *harness) scenario(s int, r *lib.RNG, sp scenarioParams) error {
 				n = uint64(ht + 1 + r.Intn(5))
 			default:
 				n = uint64(r.Intn(ht))
+			}
+			if n < uint64(w.prunedBelow) {
+				// the pruner keeps at or below the L1 head and L1 heads do not move backwards past it
+				n = uint64(w.prunedBelow + r.Intn(ht-w.prunedBelow))
 			}
 			if err := w.setL1(n); err != nil {
 				return err
@@ -288,6 +382,27 @@ func (h *harness) scenario(s int, r *lib.RNG, sp scenarioParams) error {
 			}
 		}
 	}
+	if sp.exhaustEnd {
+		if err := doQueries(w.exhaustive()); err != nil {
+			return err
+		}
+		h.res.Hit("round:exhaustive")
+	}
+	if sp.fault && w.height() > w.prunedBelow+1 {
+		// a damaged database: the commitments record of a retained block (not the head) is gone
+		n := w.prunedBelow + r.Intn(w.height()-1-w.prunedBelow)
+		if err := w.dropCommitments(n); err != nil {
+			return err
+		}
+		lines = append(lines, fmt.Sprintf("dropcommit %x", n))
+		h.res.Hit("fault:commitments-record-deleted")
+		if err := h.snapshot(s, w, &lines); err != nil {
+			return err
+		}
+		if err := doQueries(w.aboutBlock(n)); err != nil {
+			return err
+		}
+	}
 	if w.height() > 0 && (sp.short || s == 0) {
 		// flush pending chain operations to the model first (shapes asks the driver directly)
 		if err := doQueries(nil); err != nil {
@@ -301,7 +416,7 @@ func (h *harness) scenario(s int, r *lib.RNG, sp scenarioParams) error {
 	for _, n := range w.nodes {
 		h.res.HitN("feeder:status-fallback-calls", n.feeder.calls)
 	}
-	if s%3 == 0 && w.height() > 0 && !sp.short {
+	if s%3 == 0 && w.height() > 0 && !sp.short && w.prunedBelow == 0 {
 		// take the chain down to nothing: every hash is now a reverted one
 		for w.height() > 0 {
 			if err := w.revert(); err != nil {
@@ -477,7 +592,11 @@ func (h *harness) queryRound(s, round int, w *world, r *lib.RNG, sp scenarioPara
 					continue
 				}
 				// (3) deep comparison with the bundle
-				if obj != nil && exp.resolved >= 0 && !(q.id != nil && q.id.sem(ver) == "pending" && !isStateMethod(q.method)) {
+				fromChain := false // the answer is (one of) the chain's own, not that of a node that does not hold the item
+				for _, l := range exp.lines[:exp.chain] {
+					fromChain = fromChain || l == line
+				}
+				if obj != nil && exp.resolved >= 0 && fromChain && !(q.id != nil && q.id.sem(ver) == "pending" && !isStateMethod(q.method)) {
 					h.res.Hit("deep-compared:" + q.method)
 					if p := h.deep(w, q, ver, obj, exp.resolved); len(p) > 0 {
 						sort.Strings(p)
@@ -708,6 +827,11 @@ func (h *harness) violate(c *caseCtx, exp expectation, got, model string, resp r
 		sig = sigNullNumber
 	case q.method == "txByIdx" && q.id.kind == "num-missing" && q.index >= 0 && got == errLine(codeInvalidTxIndex) && want == errLine(codeBlockNotFound):
 		sig = sigMissingNumber
+	case q.method == "txByIdx" && q.id != nil && strings.Contains(q.id.kind, "pruned") && q.index >= 0 && got == errLine(codeInvalidTxIndex) &&
+		exp.accepts(errLine(codeBlockNotFound)):
+		// the same line of the handlers, reached by a block the node has pruned (by number, or by the
+		// hash of the block right below the floor, whose hash-index entry the pruner keeps)
+		sig = sigPrunedIndex
 	case isStateMethod(q.method) && q.id.kind == "hash-zero" && want == errLine(codeBlockNotFound) &&
 		c.backend == "legacy" && got == emptyStateAnswer(q.method, c.ver):
 		sig = sigHashZeroEmpty
@@ -716,6 +840,8 @@ func (h *harness) violate(c *caseCtx, exp expectation, got, model string, resp r
 		sig = sigHashZeroHead
 	case q.method == "storageLU" && c.backend == "legacy" && c.w.zeroOverZeroDispute(q, want, got):
 		sig = sigLastUpdateNoop
+	case q.method == "storageLU" && c.backend == "legacy" && c.w.prunedUpdateForgotten(want, got):
+		sig = sigLastUpdatePruned
 	case c.w.l1Sentinel && strings.Contains(want, "L1") && got == strings.ReplaceAll(want, "L1", "L2"):
 		sig = sigL1Sentinel
 	}
@@ -735,15 +861,31 @@ func firstLine(s string) string {
 
 // Signatures of the ways juno is known to leave the statement (known/C08.json).
 const (
-	sigMissingNumber  = "getTransactionByBlockIdAndIndex-missing-block-number-reports-invalid-index"
-	sigHashZeroEmpty  = "state-read-at-block-hash-zero-answers-as-for-an-empty-state"
-	sigHashZeroHead   = "state-read-at-block-hash-zero-returns-head-state-data-on-new-backend"
-	sigLastUpdateNoop = "getStorageAt-last-update-block-legacy-backend-ignores-zero-written-to-unset-slot"
-	sigNullCrash      = "read-method-panics-on-null-argument"
-	sigNullReaches    = "null-argument-reaches-handler-instead-of-invalid-params"
-	sigNullNumber     = "block-number-null-served-as-block-0"
-	sigL1Sentinel     = "l1-head-recorded-as-zero-struct-shows-block-0-as-accepted-on-l2"
+	sigMissingNumber    = "getTransactionByBlockIdAndIndex-missing-block-number-reports-invalid-index"
+	sigHashZeroEmpty    = "state-read-at-block-hash-zero-answers-as-for-an-empty-state"
+	sigHashZeroHead     = "state-read-at-block-hash-zero-returns-head-state-data-on-new-backend"
+	sigLastUpdateNoop   = "getStorageAt-last-update-block-legacy-backend-ignores-zero-written-to-unset-slot"
+	sigNullCrash        = "read-method-panics-on-null-argument"
+	sigNullReaches      = "null-argument-reaches-handler-instead-of-invalid-params"
+	sigNullNumber       = "block-number-null-served-as-block-0"
+	sigL1Sentinel       = "l1-head-recorded-as-zero-struct-shows-block-0-as-accepted-on-l2"
+	sigPrunedIndex      = "getTransactionByBlockIdAndIndex-pruned-block-reports-invalid-index"
+	sigLastUpdatePruned = "getStorageAt-last-update-block-legacy-pruned-node-forgets-updates-below-the-floor"
 )
+
+// prunedUpdateForgotten: want = "ok v @j" with j below the pruning floor, got = "ok v @0" — the
+// history-log entry of block j went with the block.
+func (w *world) prunedUpdateForgotten(want, got string) bool {
+	fw, fg := strings.Fields(want), strings.Fields(got)
+	if w.prunedBelow == 0 || len(fw) != 3 || len(fg) != 3 || fw[1] != fg[1] || fg[2] != "@0" || !strings.HasPrefix(fw[2], "@") {
+		return false
+	}
+	var j int
+	if _, err := fmt.Sscanf(fw[2], "@%x", &j); err != nil {
+		return false
+	}
+	return j > 0 && j < w.prunedBelow
+}
 
 // headStateAnswer: is `got` what the handler answers when block hash 0x0 hands it a reader of the
 // CURRENT HEAD state (new backend)? That is the answer for `latest`, except that v10 getStorageAt
@@ -848,7 +990,7 @@ func consistencyPicks(w *world, r *lib.RNG, sp scenarioParams) []consistencyPick
 		return out
 	}
 	for k := 0; k < sp.consistBlk; k++ {
-		n := r.Intn(w.height())
+		n := w.prunedBelow + r.Intn(w.height()-w.prunedBelow) // a block the node holds
 		if k == 0 {
 			n = w.height() - 1
 		}
@@ -864,6 +1006,9 @@ func consistencyPicks(w *world, r *lib.RNG, sp scenarioParams) []consistencyPick
 func (h *harness) consistency(s, round int, w *world, picks []consistencyPick) {
 	for _, pk := range picks {
 		n, id := pk.n, pk.id
+		if w.noCommit[n] {
+			continue // the fault family's block: the v0.10 block methods fail by design of the fault
+		}
 		b := w.g.Bundles[n]
 		for _, ver := range versions {
 			for ni, node := range w.nodes {
